@@ -5,7 +5,7 @@ ID=$1; TIER=${2:-quick}; D=/verif/seeded/$ID; WT=/tmp/se_$ID
 P=$(/venv/bin/python -c "import json;print(json.load(open('$D/meta.json'))['property'])")
 git -C /repo worktree remove --force $WT 2>/dev/null
 git -C /repo worktree add -q $WT HEAD || exit 2
-git -C $WT apply $D/patch.diff || { echo "patch does not apply"; git -C /repo worktree remove --force $WT; exit 3; }
+git -C $WT apply $D/patch.diff 2>/dev/null || (cd $WT && patch -p1 --fuzz=3 < $D/patch.diff > /dev/null 2>&1) || { echo "patch does not apply to the current HEAD (lines rewritten by a later fix)"; git -C /repo worktree remove --force $WT; exit 3; }
 cd /verif
 cp evidence/$P.json /tmp/se_$ID.evidence.bak 2>/dev/null
 DASK_REPO=$WT timeout 1500 ./check $P --tier $TIER > /tmp/se_$ID.log 2>&1; RC=$?
